@@ -82,6 +82,13 @@ func genC11(r *simrt.RNG) *Case {
 		pl.Reg = true // an element type the application registered with gob itself
 	}
 	oddNames(r, &pl)
+	if r.Intn(25) == 0 {
+		pl.Twin, pl.Reg, pl.Struct = true, false, true
+	}
+	bigChunk := rare(r, 150)
+	if bigChunk {
+		pl.Chunk = r.Pick(1025, 1500, 3000) // "any in-memory chunk size"
+	}
 	nc := r.Range(1, 4)
 	if rare(r, 12) {
 		nc = r.Range(5, 9) // state that only goes wrong after several cycles
@@ -93,8 +100,14 @@ func genC11(r *simrt.RNG) *Case {
 	if pl.Chunk == 100 {
 		nc = r.Range(1, 2)
 	}
+	if bigChunk {
+		nc, long = 1, false
+	}
 	for i := 0; i < nc; i++ {
 		n := cycleCount(r, pl.Chunk)
+		if bigChunk {
+			n = r.Pick(pl.Chunk-1, pl.Chunk, pl.Chunk+1, 2*pl.Chunk+1)
+		}
 		if long {
 			n = r.Pick(0, 1, pl.Chunk, pl.Chunk+1, r.Intn(2*pl.Chunk+2))
 		}
